@@ -139,6 +139,44 @@ func (p *mailboxPair) Refresh(d time.Duration) bool {
 	return true
 }
 
+// RefreshAlive moves the pair to the (1+k)-th connection of the session and
+// makes sure that connection is alive: a later connection can be killed right
+// after its handshake by what the previous one left in the relay streams (a
+// second SYN reply, a FIN: the recorded C10 findings), so a first exchange in
+// both directions must succeed and still succeed three seconds later. It
+// reports false if the caller should skip the case.
+func (p *mailboxPair) RefreshAlive(k int) bool {
+	if k <= 0 {
+		return true
+	}
+	for i := 0; i < k; i++ {
+		if !p.Refresh(60 * time.Second) {
+			return false
+		}
+	}
+	for round := 0; round < 2; round++ {
+		if round == 1 {
+			time.Sleep(3 * time.Second)
+		}
+		for _, d := range []struct{ w, r net.Conn }{{p.C, p.S}, {p.S, p.C}} {
+			d := d
+			go func() { _, _ = d.w.Write([]byte("hello")) }()
+			buf := make([]byte, 16)
+			ok := make(chan bool, 1)
+			go func() { n, err := d.r.Read(buf); ok <- err == nil && string(buf[:n]) == "hello" }()
+			select {
+			case good := <-ok:
+				if !good {
+					return false
+				}
+			case <-time.After(30 * time.Second):
+				return false
+			}
+		}
+	}
+	return true
+}
+
 // closeWithin calls the closers concurrently and reports the names of those
 // that did not return within d.
 func closeWithin(d time.Duration, names []string, closers ...func() error) (hung []string) {
